@@ -451,6 +451,7 @@ fn families() -> Vec<(&'static str, RecordKey, Vec<PoolItem>)> {
         PoolItem { name: "ops{1}", record: rec::reg_record(&fx.with_ops(&[1])) },
         PoolItem { name: "ops{0,2}", record: rec::reg_record(&fx.with_ops(&[0, 2])) },
         PoolItem { name: "undecodable", record: mk(rec::record(reg_key.clone(), bytes::Bytes::from_static(&[0x91, 0x03, 0xc1])), &reg_key) },
+        PoolItem { name: "ops{1} + an op by a key without write permission (fails verify)", record: mk(rec::reg_record(&fx.with_ops_and_stranger(&[1])), &reg_key) },
     ];
     // transactions
     let t = [rec::tx(owner, 1, owner), rec::tx(owner, 2, owner), rec::tx(owner, 3, owner)];
